@@ -581,3 +581,209 @@ pub fn gen_world(rng: &mut Rng, cfg: &WorldCfg) -> GWorld {
         live,
     }
 }
+
+// ---------------------------------------------------------------------------------------------
+// Minimisation of failing worlds (structural delta debugging) and a readable rendering.
+
+/// human-readable rendering of a world: the dependency graph and the store files as cargo-vet
+/// itself would write them
+pub fn describe(w: &GWorld) -> String {
+    let mut out = String::new();
+    for (i, p) in w.graph.pkgs.iter().enumerate() {
+        out.push_str(&format!(
+            "pkg#{i} {}:{} source={} member={} deps={:?}\n",
+            p.name,
+            p.version,
+            match p.source { 0 => "path", 1 => "crates.io", _ => "git" },
+            p.member,
+            p.deps.iter().map(|(d, k)| format!("{}{}{}->#{d}", if k & 1 != 0 { "n" } else { "" }, if k & 2 != 0 { "b" } else { "" }, if k & 4 != 0 { "d" } else { "" })).collect::<Vec<_>>()
+        ));
+    }
+    let store = w.store();
+    match super::guarded(|| store.mock_commit()) {
+        Ok(files) => {
+            for (k, v) in files {
+                out.push_str(&format!("--- {k}\n{v}\n"));
+            }
+        }
+        Err(e) => out.push_str(&format!("(store does not serialise: {e})\n")),
+    }
+    if let Some(live) = &w.live {
+        let s2 = Store::mock(w.config.clone(), w.audits.clone(), live.clone());
+        if let Ok(files) = super::guarded(|| s2.mock_commit()) {
+            if let Some(v) = files.get("imports.lock") {
+                out.push_str(&format!("--- live imports (what peers and crates.io serve now, freshness flags not shown)\n{v}\n"));
+            }
+        }
+    }
+    out
+}
+
+fn without_pkg(w: &GWorld, i: usize) -> GWorld {
+    let mut g = w.graph.clone();
+    g.pkgs.remove(i);
+    for p in &mut g.pkgs {
+        p.deps.retain(|(d, _)| *d != i);
+        for (d, _) in &mut p.deps {
+            if *d > i {
+                *d -= 1;
+            }
+        }
+    }
+    let fix = |o: &Vec<usize>| -> Vec<usize> { o.iter().filter(|x| **x != i).map(|x| if *x > i { *x - 1 } else { *x }).collect() };
+    g.resolve_order = fix(&g.resolve_order);
+    g.member_order = fix(&g.member_order);
+    let md = g.metadata();
+    GWorld { graph: g, md, config: w.config.clone(), audits: w.audits.clone(), imports: w.imports.clone(), live: w.live.clone() }
+}
+
+fn shrink_imports(f: &ImportsFile, out: &mut Vec<ImportsFile>) {
+    for (imp, af) in &f.audits {
+        for (name, l) in &af.audits {
+            for i in 0..l.len() {
+                let mut c = f.clone();
+                c.audits.get_mut(imp).unwrap().audits.get_mut(name).unwrap().remove(i);
+                out.push(c);
+            }
+        }
+        for (name, l) in &af.wildcard_audits {
+            for i in 0..l.len() {
+                let mut c = f.clone();
+                c.audits.get_mut(imp).unwrap().wildcard_audits.get_mut(name).unwrap().remove(i);
+                out.push(c);
+            }
+        }
+    }
+    for (name, l) in &f.publisher {
+        for i in 0..l.len() {
+            let mut c = f.clone();
+            c.publisher.get_mut(name).unwrap().remove(i);
+            out.push(c);
+        }
+    }
+    for (name, l) in &f.unpublished {
+        for i in 0..l.len() {
+            let mut c = f.clone();
+            c.unpublished.get_mut(name).unwrap().remove(i);
+            out.push(c);
+        }
+    }
+}
+
+/// one-step reductions of a world, biggest cuts first
+pub fn shrink_candidates(w: &GWorld) -> Vec<GWorld> {
+    let mut out = Vec::new();
+    // drop a package (never the last workspace member)
+    let members = w.graph.pkgs.iter().filter(|p| p.member).count();
+    for i in (0..w.graph.pkgs.len()).rev() {
+        if w.graph.pkgs[i].member && members <= 1 {
+            continue;
+        }
+        out.push(without_pkg(w, i));
+    }
+    // drop a dependency edge
+    for i in 0..w.graph.pkgs.len() {
+        for k in 0..w.graph.pkgs[i].deps.len() {
+            let mut g = w.graph.clone();
+            g.pkgs[i].deps.remove(k);
+            let md = g.metadata();
+            out.push(GWorld { graph: g, md, ..clone_store(w) });
+        }
+    }
+    // drop whole per-crate tables
+    for name in w.audits.audits.keys() {
+        let mut c = clone_all(w);
+        c.audits.audits.remove(name);
+        out.push(c);
+    }
+    for name in w.config.exemptions.keys() {
+        let mut c = clone_all(w);
+        c.config.exemptions.remove(name);
+        out.push(c);
+    }
+    for name in w.config.policy.package.keys() {
+        let mut c = clone_all(w);
+        c.config.policy.package.remove(name);
+        out.push(c);
+    }
+    // drop single records
+    for (name, l) in &w.audits.audits {
+        for i in 0..l.len() {
+            let mut c = clone_all(w);
+            c.audits.audits.get_mut(name).unwrap().remove(i);
+            out.push(c);
+        }
+    }
+    for (name, l) in &w.audits.wildcard_audits {
+        for i in 0..l.len() {
+            let mut c = clone_all(w);
+            c.audits.wildcard_audits.get_mut(name).unwrap().remove(i);
+            out.push(c);
+        }
+    }
+    for (name, l) in &w.audits.trusted {
+        for i in 0..l.len() {
+            let mut c = clone_all(w);
+            c.audits.trusted.get_mut(name).unwrap().remove(i);
+            out.push(c);
+        }
+    }
+    for (name, l) in &w.config.exemptions {
+        for i in 0..l.len() {
+            let mut c = clone_all(w);
+            c.config.exemptions.get_mut(name).unwrap().remove(i);
+            out.push(c);
+        }
+    }
+    let mut imps = Vec::new();
+    shrink_imports(&w.imports, &mut imps);
+    for f in imps {
+        let mut c = clone_all(w);
+        c.imports = f;
+        out.push(c);
+    }
+    if let Some(live) = &w.live {
+        let mut c = clone_all(w);
+        c.live = None;
+        out.push(c);
+        let mut lv = Vec::new();
+        shrink_imports(live, &mut lv);
+        for f in lv {
+            let mut c = clone_all(w);
+            c.live = Some(f);
+            out.push(c);
+        }
+    }
+    out
+}
+
+fn clone_all(w: &GWorld) -> GWorld {
+    GWorld { graph: w.graph.clone(), md: w.md.clone(), config: w.config.clone(), audits: w.audits.clone(), imports: w.imports.clone(), live: w.live.clone() }
+}
+
+fn clone_store(w: &GWorld) -> GWorld {
+    clone_all(w)
+}
+
+/// Greedy minimisation: keep taking the first one-step reduction on which `still_fails` holds,
+/// within `budget` evaluations.  Returns the reduced world and the number of reductions taken.
+pub fn minimise(w: &GWorld, budget: usize, still_fails: &mut dyn FnMut(&GWorld) -> bool) -> (GWorld, usize) {
+    let mut cur = clone_all(w);
+    let mut left = budget;
+    let mut steps = 0;
+    'outer: loop {
+        for cand in shrink_candidates(&cur) {
+            if left == 0 {
+                break 'outer;
+            }
+            left -= 1;
+            if still_fails(&cand) {
+                cur = cand;
+                steps += 1;
+                continue 'outer;
+            }
+        }
+        break;
+    }
+    (cur, steps)
+}
